@@ -255,9 +255,12 @@ Fixpoint range_loop (ty : N * N) (version : N) (new_idx : list N) (items : list 
   | CData _ :: rest => range_loop ty version new_idx rest (idx + 1) start_pos (idx + 1)
   | CElem c :: rest =>
     (do cn <- get_node c;
-     do ex <- wl (find_sub_element T ty (n_name cn) version);
+     do ex0 <- wl (find_sub_element T ty (n_name cn) version);
+     (* fix: an existing child that is not valid in `version` is looked up without the version restriction;
+        a child unknown to the type does not restrict the position (`continue`) *)
+     do ex <- (match ex0 with Some x => wret (Some x) | None => wl (find_sub_element T ty (n_name cn) 4294967295) end);
      match ex with
-     | None => wpanic "elementraw.rs calc_element_insert_range: find_sub_element(existing).unwrap()"
+     | None => range_loop ty version new_idx rest (idx + 1) start_pos end_pos
      | Some (_, ex_idx) =>
        do g <- wl (find_common_group T ty new_idx ex_idx);
        do gd <- wl (dt T g);
